@@ -14,6 +14,7 @@ import (
 	"time"
 
 	"github.com/cloudwego/eino/callbacks"
+	"github.com/cloudwego/eino/components"
 	"github.com/cloudwego/eino/components/tool"
 	"github.com/cloudwego/eino/compose"
 	"github.com/cloudwego/eino/schema"
@@ -135,6 +136,8 @@ func (g *genState) stages(depth int, path []int, sub bool) [][]*GNode {
 				if n.SelfCB {
 					n.Panics = false // a component that fires its callbacks itself answers for its own panics
 				}
+				// the body runs a private component on a context it initialised without handlers
+				n.Private = r.Chance(1, 6)
 				if g.store && r.Chance(1, 7) {
 					// asks for an interrupt (compose.InterruptAndRerun) the first one or two times it executes
 					n.Intr = 1
@@ -649,11 +652,12 @@ type runRec struct {
 	shared    map[int]int
 	sharedNb  map[int]int             // the same counter for the executions of the neighbour call
 	count     map[int]int             // executions of a unit over the whole run sequence (decides interrupts)
+	privRuns  map[int]int             // lambda uid -> how often its body ran its private component (observed call, whole sequence)
 	toolLists map[int][]tool.BaseTool // ToolsNode uid -> the tool list the case passes as a call option
 }
 
 func newRunRec() *runRec {
-	return &runRec{execs: map[int][]bodyRec{}, shared: map[int]int{}, sharedNb: map[int]int{}, count: map[int]int{}, toolLists: map[int][]tool.BaseTool{}}
+	return &runRec{execs: map[int][]bodyRec{}, shared: map[int]int{}, sharedNb: map[int]int{}, count: map[int]int{}, privRuns: map[int]int{}, toolLists: map[int][]tool.BaseTool{}}
 }
 
 // nextRun forgets the per-run execution records (the counters that decide interrupts stay).
@@ -733,6 +737,9 @@ func (rr *runRec) body(ctx context.Context, n *GNode, in vmap) (vmap, error) {
 	if n.DelayUs > 0 {
 		time.Sleep(time.Duration(n.DelayUs) * time.Microsecond)
 	}
+	if n.Private {
+		rr.private(ctx, n)
+	}
 	inS := render(in)
 	if isNeighbour(ctx) {
 		// an execution of the neighbour call (another call on the same compiled graph): the same
@@ -784,6 +791,23 @@ func (rr *runRec) body(ctx context.Context, n *GNode, in vmap) (vmap, error) {
 	rr.mu.Unlock()
 	return out, nil
 }
+
+// private: the node body runs a component of its own that it does not want reported. The public
+// callbacks.InitCallbacks without handlers overwrites the run info and the handlers of the context the body was
+// handed: under the result only the process-wide handlers are told (under the private run info); the handlers
+// that apply to the node are not invoked again.
+func (rr *runRec) private(ctx context.Context, n *GNode) {
+	if !isNeighbour(ctx) {
+		rr.mu.Lock()
+		rr.privRuns[n.UID]++
+		rr.mu.Unlock()
+	}
+	p := callbacks.InitCallbacks(ctx, &callbacks.RunInfo{Name: privateName(n.UID), Type: "Private", Component: components.Component("Private")})
+	p = callbacks.OnStart(p, "private-in")
+	callbacks.OnEnd(p, "private-out")
+}
+
+func privateName(uid int) string { return fmt.Sprintf("%s%d", privatePrefix, uid) }
 
 func drain(sr *schema.StreamReader[vmap]) (vmap, error) {
 	defer sr.Close()
@@ -1713,6 +1737,7 @@ func runGraph(c *Case) lib.Result {
 	faultWhere := "" // where in the prologue the failing call of the sequence failed (distribution only)
 	var baseline []string
 	var callerSlices []callerSlice
+	privCounts := map[int]int{} // lambda uid -> executions of its private component in the observed call(s)
 	class, detail := watchdog(60*time.Second, func() {
 		// an eager run leaves tasks behind; they are over when the number of goroutines is back
 		// to what it was (the process-wide handler list must not be touched before that)
@@ -1976,6 +2001,11 @@ func runGraph(c *Case) lib.Result {
 			execs := rr.execs
 			rr.mu.Unlock()
 			runs = append(runs, oneRun{result: result, evts: evts, execs: execs})
+			rr.mu.Lock()
+			for uid, n := range rr.privRuns {
+				privCounts[uid] = n
+			}
+			rr.mu.Unlock()
 			if result != "intr" {
 				break
 			}
@@ -2077,6 +2107,48 @@ func runGraph(c *Case) lib.Result {
 		}
 		nIntrRuns++
 		ps.advanceRun(c.Stages, c.optsFor(k))
+	}
+	// the private components node bodies ran on contexts they initialised without handlers: the process-wide handlers
+	// are told (once at the start, once at the end of every such execution, subject to their TimingChecker), nobody else
+	{
+		isGlobal := map[int]bool{}
+		for _, id := range c.Globals {
+			isGlobal[id] = true
+		}
+		got := map[[3]int]int{} // (handler, timing, lambda uid) -> invocations
+		s.mu.Lock()
+		for _, e := range s.priv {
+			var uid int
+			fmt.Sscanf(strings.TrimPrefix(e.Name, privatePrefix), "%d", &uid)
+			if !isGlobal[e.H] {
+				fail("graph-private", "handler %d, passed to the call (not a process-wide one), was invoked (timing %d) for the private component that the body of unit u%d runs on a context it initialised with callbacks.InitCallbacks without handlers", e.H, e.T, uid)
+				continue
+			}
+			got[[3]int{e.H, e.T, uid}]++
+		}
+		s.mu.Unlock()
+		for uid, n := range privCounts {
+			mult := map[int]int{}
+			for _, id := range c.Globals {
+				mult[id]++
+			}
+			for id, m := range mult {
+				for t := 0; t < 2; t++ {
+					want := 0
+					if needsT(specs[id], t) {
+						want = n * m
+					}
+					if g := got[[3]int{id, t, uid}]; g != want {
+						fail("graph-private", "process-wide handler %d: %d invocations with timing %d for the private component of unit u%d (run %d times), want %d", id, g, t, uid, n, want)
+					}
+				}
+			}
+		}
+		for k, g := range got {
+			if k[1] > 1 || privCounts[k[2]] == 0 {
+				fail("graph-private", "process-wide handler %d: %d invocations with timing %d for a private component of unit u%d, which ran %d times and fires start and end only", k[0], g, k[1], k[2], privCounts[k[2]])
+			}
+		}
 	}
 	// no handler crossed from one call on the compiled graph to the other
 	s.mu.Lock()
@@ -2228,6 +2300,9 @@ func runGraph(c *Case) lib.Result {
 	}
 	if c.Neighbour != "" {
 		res.Tags = append(res.Tags, "neighbour-call:"+c.Neighbour)
+	}
+	if len(privCounts) > 0 {
+		res.Tags = append(res.Tags, "private-component-in-node-body")
 	}
 	for _, sp := range c.Handlers {
 		if sp.Builder {
